@@ -11,8 +11,9 @@
   abstract (parameters); `DecryptEnv` says what is assumed of them: they are the model's.
   The theorem: for EVERY file and identity list the translated `Decrypt` returns what the
   model's `decryptInit` (AgeModel/File.lean) returns — the same error class, with the same
-  number of collected causes, or the reader made from the same stream key and the same payload
-  bytes. So `Props.C03.mac_gate`, `Props.C04.no_match_structure`, `reader_requires_key` and the
+  number of collected causes, or — when an identity fails — no reader and the very error that identity's
+  `Unwrap` returned (the identity being the one at the index the model names), or the reader made from
+  the same stream key and the same payload bytes. So `Props.C03.mac_gate`, `Props.C04.no_match_structure`, `reader_requires_key` and the
   "identities are consulted in order and none after the first that opens the file" clause of C01
   are about the source text.
 -/
@@ -142,19 +143,39 @@ theorem makeList_16 : Go.makeList (0 : UInt8) (16 : Int) = .ok (List.replicate 1
 abbrev DecLoopRes := Go.Loop (Option Go.Err × age_NoIdentityMatchError × Bytes) (Bytes × Option Go.Err)
 
 /-- what the identity loop of the source leaves, for each outcome of the model's loop
-    (`n`: the number of causes collected if nobody opened the file) -/
-def loopSpec (n : Nat) (l : DecLoopRes) : Except DecErr (Option Bytes) → Prop
-  | .error (.fatal _) => ∃ e, l = .ret ([], e) ∧ e ≠ none ∧ e ≠ age_ErrIncorrectIdentity
+    (`n`: the number of causes collected if nobody opened the file; `U j`: what identity `j`'s `Unwrap` answers on
+    the header's stanzas; `ids`: the identities still to consult, the first of them being number `c` of the whole
+    list). A fatal outcome `.fatal idx`: the loop RETURNED, with no reader, the very error identity number `idx`
+    answered — which is neither nil nor "incorrect identity" -/
+def loopSpec {ι : Type} (U : ι → Go.M (Bytes × Option Go.Err)) (ids : List ι) (c n : Nat) (l : DecLoopRes) :
+    Except DecErr (Option Bytes) → Prop
+  | .error (.fatal idx) => ∃ j r, c ≤ idx ∧ ids[idx - c]? = some j ∧ U j = .ok r ∧ r.2 ≠ none ∧
+      r.2 ≠ age_ErrIncorrectIdentity ∧ l = .ret ([], r.2)
   | .error _ => False
   | .ok none => ∃ e enm', l = .next (e, enm', []) ∧ enm'.Errors.length = n
   | .ok (some k) => ∃ e enm', l = .next (e, enm', k) ∧ k ≠ []
+
+theorem loopSpec_cons {ι : Type} (U : ι → Go.M (Bytes × Option Go.Err)) (i : ι) (ids : List ι) (c n : Nat)
+    (l : DecLoopRes) (x : Except DecErr (Option Bytes)) (h : loopSpec U ids (c + 1) n l x) :
+    loopSpec U (i :: ids) c n l x := by
+  cases x with
+  | error e =>
+    cases e <;> simp only [loopSpec] at h ⊢
+    obtain ⟨j, r, hc, hj, hrest⟩ := h
+    refine ⟨j, r, by omega, ?_, hrest⟩
+    rename_i idx
+    have : idx - c = (idx - (c + 1)) + 1 := by omega
+    rw [this, List.getElem?_cons_succ]
+    exact hj
+  | ok o => cases o <;> exact h
 
 theorem loop2_spec {P : Prims} {ι : Type} (E : DecryptEnv P ι)
     (hNil : ∀ i (ss : List Format.Stanza) r, E.U i (ss.map toGoStanza) = .ok r → r.2 = age_ErrIncorrectIdentity → r.1 = [])
     (ss : List Format.Stanza) :
     ∀ (ids : List ι) (err : Option Go.Err) (enm : age_NoIdentityMatchError) (nInc c : Nat),
       ∃ l, age_Decrypt_loop2 E.U errorsIsEq (ss.map toGoStanza) ids err enm [] = .ok l ∧
-        loopSpec (enm.Errors.length + countIncorrect P ss (ids.map E.idOf)) l
+        loopSpec (fun j => E.U j (ss.map toGoStanza)) ids c
+          (enm.Errors.length + countIncorrect P ss (ids.map E.idOf)) l
           (identityLoop P ss (ids.map E.idOf) nInc c).1
   | [], err, enm, nInc, c => ⟨.next (err, enm, []), rfl, err, enm, rfl, rfl⟩
   | i :: ids, err, enm, nInc, c => by
@@ -167,7 +188,7 @@ theorem loop2_spec {P : Prims} {ι : Type} (E : DecryptEnv P ι)
       · simp only [Bool.false_eq_true, if_false, resClass_of_nil r hb2]
         exact ⟨_, rfl, r.2, enm, rfl, hne (by simpa using hb2)⟩
       · simp only [if_true, resClass_of_notInc_err r hb hb2]
-        exact ⟨_, rfl, r.2, rfl, by simpa using hb2, by simpa using hb⟩
+        exact ⟨_, rfl, i, r, Nat.le_refl c, by rw [Nat.sub_self]; rfl, hr, by simpa using hb2, by simpa using hb, rfl⟩
     · simp only [if_true, resClass_of_isInc r hb]
       rw [hNil i ss r hr (by simpa using hb)]
       obtain ⟨l, hl, hs⟩ := loop2_spec E hNil ss ids r.2 ⟨enm.Errors ++ [r.2]⟩ (nInc + 1) (c + 1)
@@ -175,7 +196,7 @@ theorem loop2_spec {P : Prims} {ι : Type} (E : DecryptEnv P ι)
       have hn : enm.Errors.length + (1 + countIncorrect P ss (ids.map E.idOf)) =
           (enm.Errors ++ [r.2]).length + countIncorrect P ss (ids.map E.idOf) := by
         rw [List.length_append, List.length_singleton]; omega
-      rw [hn]; exact hs
+      rw [hn]; exact loopSpec_cons _ i ids c _ l _ hs
 
 theorem len_replicate16 : Go.len (List.replicate 16 (0 : UInt8)) = (16 : Int) := rfl
 
@@ -205,7 +226,8 @@ theorem decrypt_tie_of_nil (P : Prims) {ι : Type} (E : DecryptEnv P ι)
     ∃ res, age_Decrypt E.D E.U errorsIsEq E.mac E.newReader E.key file ids = .ok res ∧
       match (decryptInit P (ids.map E.idOf) file).1 with
       | .ok (k, payload) => res = (k ++ payload, none)
-      | .error (.fatal _) => res.2 ≠ none ∧ res.2 ≠ age_ErrIncorrectIdentity
+      | .error (.fatal idx) => ∃ hdr payload j r, Format.parse file = .ok (hdr, payload) ∧ ids[idx]? = some j ∧
+          E.U j (hdr.stanzas.map toGoStanza) = .ok r ∧ r.2 ≠ none ∧ r.2 ≠ age_ErrIncorrectIdentity ∧ res = ([], r.2)
       | .error e => res = ([], decryptErr e none) := by
   cases ids with
   | nil => exact ⟨_, rfl, rfl⟩
@@ -236,8 +258,9 @@ theorem decrypt_tie_of_nil (P : Prims) {ι : Type} (E : DecryptEnv P ι)
       cases a with
       | error e =>
         cases e <;> simp only [loopSpec] at hs
-        obtain ⟨e, rfl, h1, h2⟩ := hs
-        exact ⟨([], e), rfl, h1, h2⟩
+        obtain ⟨j, r, _, hj, hr, h1, h2, rfl⟩ := hs
+        rw [Nat.sub_zero] at hj
+        exact ⟨([], r.2), rfl, hdr, payload, j, r, rfl, hj, hr, h1, h2, rfl⟩
       | ok o =>
         cases o with
         | none =>
@@ -268,7 +291,8 @@ theorem decrypt_tie (P : Prims) {ι : Type} (E : DecryptEnv P ι) (file : Bytes)
     ∃ res, age_Decrypt E.D E.U errorsIsEq E.mac E.newReader E.key file ids = .ok res ∧
       match (decryptInit P (ids.map E.idOf) file).1 with
       | .ok (k, payload) => res = (k ++ payload, none)
-      | .error (.fatal _) => res.2 ≠ none ∧ res.2 ≠ age_ErrIncorrectIdentity
+      | .error (.fatal idx) => ∃ hdr payload j r, Format.parse file = .ok (hdr, payload) ∧ ids[idx]? = some j ∧
+          E.U j (hdr.stanzas.map toGoStanza) = .ok r ∧ r.2 ≠ none ∧ r.2 ≠ age_ErrIncorrectIdentity ∧ res = ([], r.2)
       | .error e => res = ([], decryptErr e none) := by
   refine decrypt_tie_of_nil P E (fun i ss r hr he => ?_) file ids
   obtain ⟨r', hr', _, _, hnil⟩ := E.hU i ss
